@@ -392,6 +392,54 @@ def check_borrowed(prog, rep):
                                   (hit, src, how), c.lineno)
 
 
+# public network-level functions whose in-place Array call on a parameter is confirmed harmless
+PARAM_ICALL_OK = {
+    (MPS, 'BaseMPSExpectationValue.apply_JW_string_left_of_virt_leg', 'theta'):
+        'in-place by contract: returns None, the signs are applied to the tensor handed in',
+    (MPO, 'MPO.__add__', 'other'):
+        'itranspose to the canonical order wL,wR,p,p* in which every MPO keeps its W (identity '
+        'permutation; MPO.__init__ and test_sanity establish the order)',
+}
+
+
+def check_param_icall(prog, rep, inplace):
+    """mps.py / mpo.py: a public function does not call an in-place Array method on a tensor it was
+    handed as a parameter. Private helpers (leading underscore) work on intermediates of their
+    caller and `matvec`/`_project` follow the linear-operator protocol (the operator may choose
+    the leg order of the vector it is given; values and labels stay): both are out of scope."""
+    n = 0
+    for rel in (MPS, MPO):
+        m = prog.module(rel)
+        own = Own(m, inplace)
+        for q, f in m.functions.items():
+            if q.count('.') > 1 or (f.name.startswith('_') and not f.name.startswith('__')) or \
+                    f.name == 'matvec':
+                continue
+            fi = FuncInfo(f, q, True)
+            for st, kind, root, attr, desc in own.write_sites(fi):
+                if kind != 'icall':
+                    continue
+                base = root
+                while isinstance(base, (ast.Attribute, ast.Subscript)):
+                    base = base.value
+                if not isinstance(base, ast.Name) or base.id in ('self', 'cls') or \
+                        base.id not in fi.params:
+                    continue
+                if own.origin_at(fi, st, root) != 'P':
+                    continue
+                n += 1
+                acc = PARAM_ICALL_OK.get((rel, q, base.id))
+                rep.instance('OWN-param-icall', {'function': q, 'site': desc, 'accepted': acc})
+                if acc:
+                    continue
+                rep.violation('OWN-param-icall', m, q, 'param-icall:%s:%s' % (base.id, attr),
+                              '%s is not an in-place operation on `%s`, but `%s` calls the in-place '
+                              'method `%s` on it while it may still be the caller\'s tensor: the '
+                              'caller sees its legs / labels / values change' %
+                              (q, base.id, key_text(st)[:80], attr), st.lineno)
+    return n
+
+
 def check_network_copies(prog, rep):
     """MPS/MPO constructors and copy() store copies of the tensors"""
     for rel, qual, attr in ((MPS, 'MPS.__init__', '_B'), (MPS, 'MPS.copy', '_B'),
@@ -439,6 +487,8 @@ def run(prog, rep, tier):
     rep.rule('OWN-callee', 'operands are not passed to workers that write that parameter')
     rep.rule('OWN-legs', 'no in-place store through X.charges / X.slices anywhere')
     rep.rule('OWN-make_valid', 'make_valid does not write its argument')
+    rep.rule('OWN-param-icall', 'public functions of mps.py / mpo.py do not call in-place Array '
+             'methods on tensors received as parameters')
     rep.rule('OWN-network-copy', 'MPS/MPO constructors and copy() store copies of tensors')
     inplace = inplace_names(prog)
     modules = [NPC, CH, SPARSE, TRUNC, KRY]
@@ -487,6 +537,8 @@ def run(prog, rep, tier):
     check_inplace_flag(prog, rep)
     check_network_copies(prog, rep)
     check_borrowed(prog, rep)
+    if check_param_icall(prog, rep, inplace) < 2:
+        raise AnalysisError('OWN-param-icall: the confirmed instances were not found')
     rep.floor('OWN-write', 150)
     rep.assumptions += ['origin U (unknown) is never flagged: the analysis may miss, not invent',
                         'numpy view/copy table in sa/own.py',
